@@ -163,6 +163,8 @@ fn main() {
     let mode = std::env::args().nth(2).unwrap_or_else(|| "direct".into());
     if mode == "e2e" {
         for_each_case(e2e::e2e_case);
+    } else if mode == "prune" {
+        for_each_case(e2e::prune_case);
     } else {
         for_each_case(direct_case);
     }
@@ -257,6 +259,42 @@ mod e2e {
         }
         block!(open_repo(rec.clone(), None, &key, &ropts).unwrap().to_indexed().unwrap());
         block!(open_repo(rec.clone(), None, &key, &ropts).unwrap().to_indexed_ids().unwrap());
+        out.join(" ")
+    }
+
+    /// The index `prune` builds for itself, observed through the real `Repository::prune_plan`:
+    /// for each of the first 8 tree queries a snapshot with that root tree is stored, prune_plan is
+    /// run (it must look the tree up in its own index and read it), and the partial pack read it
+    /// issued is reported: `id=c:pack:off:len`, or `id=-` when it failed with "not found in index"
+    /// without reading.  The packs do not exist, so prune_plan always ends with an error.
+    pub fn prune_case(line: &str) -> String {
+        use rustic_core::{PruneOptions, TreeId, repofile::SnapshotFile};
+        let c = parse(line);
+        let rec = RecBackend::new(Arc::new(NoPacks(mem())), "c17p");
+        let ropts = repo_opts();
+        let (repo, _key) = init_repo(rec.clone(), None, &ConfigOptions::default(), &ropts).expect("init");
+        for f in &c.files {
+            hook::save_index_file(&repo, f).expect("save index file");
+        }
+        rec.set_plan(FaultPlan { record_reads: true, ..Default::default() });
+        let mut out = vec!["P".to_string()];
+        for (_, id) in c.queries.iter().filter(|q| q.0).take(8) {
+            let snap = SnapshotFile { tree: TreeId::from(*id), ..Default::default() };
+            repo.save_snapshots(vec![snap]).expect("save snapshot");
+            let _ = rec.take_log();
+            let res = catch_unwind(AssertUnwindSafe(|| repo.prune_plan(&PruneOptions::default()).map(|_| ()).map_err(|e| format!("{e:?}"))));
+            let reads: Vec<_> = rec.take_log().into_iter().filter(|o| o.kind == OpKind::ReadPartial).collect();
+            let r = match (&res, reads.as_slice()) {
+                (Ok(Err(e)), []) if e.contains("not found in index") => "-".to_string(),
+                (Ok(Err(_)), [o]) if o.tpe == FileType::Pack => format!("{}:{}:{}:{}", u8::from(o.cacheable), idstr(&o.id), o.offset, o.len),
+                (Err(_), _) => "panic".to_string(),
+                _ => format!("?{}reads,{}", reads.len(), if matches!(res, Ok(Ok(()))) { "ok" } else { "err" }),
+            };
+            out.push(format!("{}={}", idstr(id), r));
+            for (sid, _) in rec.list_with_size(FileType::Snapshot).expect("list") {
+                rec.remove(FileType::Snapshot, &sid, false).expect("remove snapshot");
+            }
+        }
         out.join(" ")
     }
 }
